@@ -510,13 +510,13 @@ Lemma nv_c19_error_4 :
 Proof.
   destruct c19_error as (_ & _ & _ & E4). destruct envN_self as (S8 & S9 & S10).
   assert (Body dfn (sel2 [i 6; u 0; i 99]) = Fail edivz) as HB by reflexivity.
-  destruct (E4 envN 7 1 sel2 8 3 4 (nestedM envN 7 1 sel2 cMm) below [i 6; u 0; i 99] 4 edivz dfn
+  destruct (E4 envN envN 7 1 sel2 8 3 4 (nestedM envN 7 1 sel2 cMm) below [i 6; u 0; i 99] 4 edivz dfn
               eq_refl eq_refl eq_refl HB) as (A1 & A2);
     [right; right; eexists; reflexivity | reflexivity | lia |].
-  destruct (E4 envN 7 1 sel2 9 3 0 (nested0 envN 7 1 sel2 c0) below [i 6; u 0; i 99] 0 edivz dfn
+  destruct (E4 envN envN 7 1 sel2 9 3 0 (nested0 envN 7 1 sel2 c0) below [i 6; u 0; i 99] 0 edivz dfn
               eq_refl eq_refl eq_refl HB) as (B1 & B2);
     [left; eexists; reflexivity | reflexivity | lia |].
-  destruct (E4 envN 7 1 sel2 10 3 1 (nested1 envN 7 1 sel2 c1) below [i 6; u 0; i 99] 1 edivz dfn
+  destruct (E4 envN envN 7 1 sel2 10 3 1 (nested1 envN 7 1 sel2 c1) below [i 6; u 0; i 99] 1 edivz dfn
               eq_refl eq_refl eq_refl HB) as (C1 & C2);
     [right; left; eexists; reflexivity | reflexivity | lia |].
   split; [reflexivity|]. split; [reflexivity|]. split; [reflexivity|]. split; [exact HB|].
@@ -525,42 +525,13 @@ Proof.
   repeat split; reflexivity.
 Qed.
 
-(* REMARK (c19_error conjunct 4, second half).  The premise  env hout = Some (NewFunc argc rets n)
-   with  n = nestedX env hin k sel c  is self-referential in env (the closure stored in env mentions
-   env).  Axiom-free it can only be established by CONVERSION, i.e. for selections whose result has a
-   literal spine (sel2 above; constants); for  sel = id / firstn 2 / skipn 1 ...  the two closures
-   differ by a stuck  pop (sel a ++ [CFn hin])  and the premise needs functional extensionality.
-   The lookup of the OUTER function does not have to happen in the env the closure captured: the
-   statement below (same proof idea) has no self-reference and implies the stated one. *)
-Lemma remark_c19_error_4_general :
-  forall env env2 hin k sel hout argc rets n args xRets e inner,
-    env hin = Some inner -> Variadic inner = false -> slen (sel args) = Args inner ->
-    Body inner (sel args) = Fail e ->
-    (exists c, n = nested0 env hin k sel c) \/ (exists c, n = nested1 env hin k sel c) \/
-    (exists c, n = nestedM env hin k sel c) ->
-    slen args = argc -> 0 <= xRets ->
-    env2 hout = Some (NewFunc argc rets n) -> vm_func env2 (CFn hout) xRets args = Fail e.
-Proof.
-  intros env env2 hin k sel hout argc rets n args xRets e inner He HV Hs HB Hn Ha Hx Ho.
-  destruct c19_error as (_ & _ & E3 & E4).
-  destruct (E4 env hin k sel hout argc rets n [] args xRets e inner He HV Hs HB Hn Ha Hx) as (Hc & _).
-  pose proof (slen_nonneg args) as Hnn.
-  assert (Variadic (NewFunc argc rets n) = false) as HVn.
-  { destruct (c19_fields argc rets n) as (_ & _ & _ & HVn); [lia|].
-    destruct Hn as [[c ->]|[[c ->]|[c ->]]]; exact HVn. }
-  destruct (c19_fields argc rets n) as (HA & _); [lia|].
-  apply (E3 env2 hout (NewFunc argc rets n)); try assumption; [congruence|].
-  (* Body = Fail e, read off the call on an empty prefix *)
-  destruct c19_call as (_ & _ & C3 & _). rewrite C3 in Hc by assumption. cbn [app] in Hc.
-  unfold callReady in Hc. rewrite HA, Z.eqb_refl in Hc. cbn [negb] in Hc.
-  destruct (Body (NewFunc argc rets n) args) as [st'|e'] eqn:EB; [|cbn in Hc; congruence].
-  exfalso. (* a Good body contradicts the frame property + failing lift *)
-  destruct c19_frames as (F1 & _). specialize (F1 argc rets n [] args Ha). cbn [app] in F1.
-  assert (lift n args = Fail e) as HL.
-  { assert (vm_func env (CFn hin) k (sel args) = Fail e) as HI by (apply (E3 env hin inner); assumption).
-    destruct Hn as [[c ->]|[[c ->]|[c ->]]]; cbn [lift nested0 nested1 nestedM]; now rewrite HI. }
-  rewrite HL in F1. cbn in F1. congruence.
-Qed.
+(* HISTORY (c19_error conjunct 4, second half).  In the first version the premise was
+   env hout = Some (NewFunc argc rets n)  with  n = nestedX env hin k sel c : self-referential in env (the
+   closure stored in env mentions env).  Axiom-free it could only be established by CONVERSION, i.e. for
+   selections whose result has a literal spine (sel2 above; constants); for  sel = id / firstn 2 / skipn 1 ...
+   the two closures differ by a stuck  pop (sel a ++ [CFn hin])  and the premise needed functional
+   extensionality.  c19_error now quantifies over the table env2 in which the OUTER function is looked up
+   (the general statement this file proved as remark_c19_error_4_general); the old statement is env2 = env. *)
 
 (* with it: a selection that is NOT spine-transparent (sel = firstn 2), outer function registered in
    an extension of the env its closure captured *)
@@ -569,8 +540,9 @@ Definition envX : Z -> option funcT := fun h =>
 Lemma nv_c19_error_4_firstn :
   vm_func envX (CFn 8) 4 [i 6; u 0; i 99] = Fail edivz.
 Proof.
-  apply (remark_c19_error_4_general env0 envX 7 1 (firstn 2) 8 3 4 (nestedM env0 7 1 (firstn 2) cMm)
-           [i 6; u 0; i 99] 4 edivz dfn); try reflexivity; try lia.
+  destruct c19_error as (_ & _ & _ & E4).
+  refine (proj2 (E4 env0 envX 7 1 (firstn 2) 8 3 4 (nestedM env0 7 1 (firstn 2) cMm) [] [i 6; u 0; i 99] 4 edivz dfn
+                    eq_refl eq_refl eq_refl eq_refl _ eq_refl _) eq_refl); [|lia].
   right; right; eexists; reflexivity.
 Qed.
 
@@ -584,4 +556,4 @@ Print Assumptions nv_c19_error_4.
 Print Assumptions nv_c19_func_2.
 Print Assumptions nv_c19_method_23.
 Print Assumptions nv_c19_call_4.
-Print Assumptions remark_c19_error_4_general.
+Print Assumptions nv_c19_error_4_firstn.
